@@ -459,8 +459,9 @@ def run_dataedit(case, ctx):
 # ---------------- IfOutput / NotIfInitialized / add_output inside a simulation ----------------
 def ctrl_cases(ctx):
     rng = ctx.rng('ctrl')
-    for _ in range(6 if ctx.tier == 'quick' else 120):
-        yield {'part': 'ctrl', 'vals': [rng.choice([0, 1, '', 'on', None, 2, [], [0]])
+    for _ in range(40 if ctx.tier == 'quick' else 600):
+        yield {'part': 'ctrl', 'vals': [rng.choice([0, 1, '', 'on', None, 2, [], [0], {}, {'value': -1},
+                                                    {'k': 'x', 'source': 'cfg'}])
                                         for _ in range(rng.randrange(2, 9))],
                'byname': rng.random() < 0.5, 'inverted': rng.random() < 0.4}
 
@@ -522,6 +523,10 @@ def run_ctrl(case, ctx):
             if ret is not exp or len(recv) != int(exp):
                 ctx.violation(case, 'ifoutput', f"IfOutput(inverted={case['inverted']}) with "
                               f"control output {out!r}: send() -> {ret!r}, {len(recv)} deliveries")
+            elif exp and recv[0][5] != {'k': k, 'source': src.name}:
+                # the filter only permits or vetoes, the data must pass unchanged
+                ctx.violation(case, 'ifoutput-data', f"IfOutput with control output {out!r}: "
+                              f"destination got {recv[0][5]!r}, sent {{'k': {k}}}")
             objs['ev_ao'].send(src, k=k)
             recv = [e for e in hist.kinds('recv') if e[4] == 'ao']
             if len(recv) != 1 or recv[0][5].get('c') != out or type(recv[0][5].get('c')) is not type(out):
